@@ -93,4 +93,9 @@ on their way into PC space (no statistics of the NEW data enter) -/
 theorem src_cross_transform_forwards_normalized :
     Gen.crossTransformAlgorithmCall = "self._transform_algorithm(X, Y, normalized=normalized)" := by decide
 
+/-- source obligation: `transform` writes nothing into the object (no cache can survive a refit) — models and rotators alike -/
+theorem src_transform_writes_nothing :
+    Gen.cpccaRotatorTransformWrites = [] ∧ Gen.eofRotatorTransformWrites = [] ∧ Gen.crossTransformWrites = [] ∧
+    Gen.singleTransformWrites = [] := by decide
+
 end C04
